@@ -24,6 +24,7 @@ def main(argv=None):
     ap.add_argument("--dump-signatures", action="store_true", help="development aid: print every violation signature")
     args = ap.parse_args(argv)
     pid = args.prop.upper()
+    os.environ["VERIF_TIER_EFFECTIVE"] = args.tier
     if args.tier == "thorough":
         os.environ.setdefault("VERIF_CROSSCHECK", "1")
     try:
